@@ -48,12 +48,15 @@ NEXT = {
 }
 
 CLAUSES = ["grammar", "nesting", "args", "turn_order", "ball_number", "extra_ball", "game_end_legit",
-           "ball_end_cause", "ball_end_progress", "end_request_honoured", "bip_range", "after_end", "game_progress"]
+           "ball_end_cause", "ball_end_progress", "end_request_honoured", "bip_range", "after_end", "game_progress",
+           "bpg_change"]
 
 
 class Oracle:
     def __init__(self, balls_per_game, balls_known, horizon):
-        self.B = balls_per_game
+        self.B = balls_per_game   # balls per game of the CURRENT game (as configured when that game started)
+        self.B_next = balls_per_game   # what the configuration evaluates to now: the next game has to use it
+        self.B_prev = None        # balls per game of the previous game on this machine
         self.K = balls_known
         self.H = horizon
         self.viol = []
@@ -61,13 +64,15 @@ class Oracle:
         self.obs = {"games_started": 0, "games_ended": 0, "turns": 0, "balls": 0, "extra_balls_played": 0,
                     "players_added": 0, "late_adds_accepted": 0, "adds_denied": 0, "ambiguous_ball_ops": 0,
                     "end_requests_in_ball": 0, "end_requests_outside_ball": 0, "games_cut_short": 0,
-                    "ball_ends_by_zero": 0, "ball_ends_by_request": 0, "max_players_seen": 0}
+                    "ball_ends_by_zero": 0, "ball_ends_by_request": 0, "max_players_seen": 0,
+                    "games_after_bpg_change": 0}
         self.trace = []
         self.now = 0.0
         self.st = None            # last lifecycle event dispatched (None == no game)
         self.prev_done = True
         self.game_no = 0
         self.pre_req = []         # requests that reached the game object before game_will_start was dispatched
+        self.bpg_changed = False
         self._reset_game()
 
     # ------------------------------------------------------------------------------------------
@@ -93,6 +98,7 @@ class Oracle:
         self.end_any = False
         self.tilt_any = False
         self.late_add = False
+        self.stale_bpg = False    # a ball event carried balls_remaining computed from the previous game's value
 
     def V(self, clause, sig, **detail):
         if len(self.viol) < 12:
@@ -104,7 +110,13 @@ class Oracle:
         return self.st is not None and self.st != "game_ended"
 
     def _sig(self, generic):
+        if self.stale_bpg:
+            return "C06:stale_balls_per_game_from_previous_game"
         return "C06:player_add_after_first_round_rotation" if self.late_add else generic
+
+    def set_balls_per_game(self, value):
+        """The configured balls_per_game (template) evaluates to `value` from now on."""
+        self.B_next = value
 
     # ------------------------------------------------------------------------------------------
     # lifecycle events
@@ -158,6 +170,12 @@ class Oracle:
         self._reset_game()
         self.game_no += 1
         self.obs["games_started"] += 1
+        if self.game_no > 1:
+            self.B_prev = self.B
+        self.B = self.B_next      # balls_per_game as evaluated at this game's start
+        self.bpg_changed = self.B_prev is not None and self.B_prev != self.B
+        if self.bpg_changed:
+            self.obs["games_after_bpg_change"] += 1
         if self.pre_req:
             # requests that reached the game object before its game_will_start was dispatched: whether they
             # belong to this game cannot be observed from outside, so they only widen what is accepted
@@ -175,6 +193,8 @@ class Oracle:
 
     def _on_game_will_end(self, kw, st):
         self.clauses["game_end_legit"] += 1
+        if self.bpg_changed:
+            self.clauses["bpg_change"] += 1
         complete = False
         if self.last_turn is not None:
             p, b = self.last_turn
@@ -272,7 +292,11 @@ class Oracle:
                "is_extra_ball": self.k > 1}
         got = {k: kw.get(k) for k in exp}
         if got != exp:
-            self.V("args", self._sig("C06:ball_event_wrong_numbers"), event=ev, got=got, expected=exp)
+            if self.bpg_changed and self.cur_b is not None and got["balls_remaining"] == self.B_prev - self.cur_b and \
+                    all(got[k] == exp[k] for k in exp if k != "balls_remaining"):
+                self.stale_bpg = True
+            self.V("args", self._sig("C06:ball_event_wrong_numbers"), event=ev, got=got, expected=exp,
+                   balls_per_game=self.B, balls_per_game_previous_game=self.B_prev)
 
     def _on_ball_will_start(self, kw, st):
         self.k += 1
